@@ -99,7 +99,13 @@ func RunAll(eng *Engine, runs []*HarnessRun, workers, timeoutMs int) []*HarnessR
 			wk := NewWorker(eng, timeoutMs)
 			defer wk.Close()
 			for i := range ch {
+				if os.Getenv("GOSYM_PROGRESS") != "" {
+					fmt.Fprintf(os.Stderr, "start %s\n", runs[i].Name)
+				}
 				results[i] = wk.Explore(runs[i])
+				if os.Getenv("GOSYM_PROGRESS") != "" {
+					fmt.Fprintf(os.Stderr, "done %s paths=%d wall=%.1fs\n", runs[i].Name, results[i].Paths, results[i].WallSec)
+				}
 			}
 		}()
 	}
